@@ -376,8 +376,13 @@ type frameCond struct {
 // modLocs evaluates the modifies clause in the entry state.
 type modLocs struct {
 	cells  map[string][]T // heap name -> leaf addresses
-	maps   []T            // map refs whose contents may change
+	maps   []mapLoc       // maps whose contents may change
 	slices []sliceLoc
+}
+
+type mapLoc struct {
+	m  T
+	mt *types.Map
 }
 
 // sliceLoc: all cells of heap `heap` for which in(a) holds (a is the name of
@@ -401,7 +406,7 @@ func (c *Ctx) evalModifies(ct *Contract, env *Env) *modLocs {
 				addLeaves(Idx(a, IntLit(i)), u.Elem())
 			}
 		default:
-			h := c.R.CellHeap(c.R.SortOf(t))
+			h := c.R.CellHeapT(t)
 			ml.cells[h] = append(ml.cells[h], a)
 		}
 	}
@@ -415,7 +420,9 @@ func (c *Ctx) evalModifies(ct *Contract, env *Env) *modLocs {
 			}
 			switch u := under(v.typ).(type) {
 			case *types.Map:
-				ml.maps = append(ml.maps, v.t)
+				ml.maps = append(ml.maps, mapLoc{v.t, u})
+				c.R.MDomHeapT(u)
+				c.R.MValHeapT(u)
 			case *types.Slice:
 				sv := v.t.S
 				// leaf cells of every element: paths of field ids below ridx(arr, j)
@@ -427,7 +434,7 @@ func (c *Ctx) evalModifies(ct *Contract, env *Env) *modLocs {
 						}
 						return
 					}
-					heap := c.R.CellHeap(c.R.SortOf(t))
+					heap := c.R.CellHeapT(t)
 					p := append([]int(nil), path...)
 					ml.slices = append(ml.slices, sliceLoc{heap: heap, in: func(a string) string {
 						// a = rfld(...rfld(ridx(arr,j), p[0])..., p[k-1])
@@ -477,6 +484,15 @@ func (c *Ctx) frameConds(fr *frame, ct *Contract, st *State) []frameCond {
 		if cur.S == ini {
 			continue
 		}
+		whole := false
+		for _, mh := range ct.ModHeaps {
+			if mh == h {
+				whole = true
+			}
+		}
+		if whole {
+			continue
+		}
 		var excl []string
 		if strings.HasPrefix(h, "Cell_") {
 			for _, a := range ml.cells[h] {
@@ -489,7 +505,9 @@ func (c *Ctx) frameConds(fr *frame, ct *Contract, st *State) []frameCond {
 			}
 		} else {
 			for _, m := range ml.maps {
-				excl = append(excl, fmt.Sprintf("(not (= a %s))", m.S))
+				if h == c.R.MDomHeapT(m.mt) || h == c.R.MValHeapT(m.mt) {
+					excl = append(excl, fmt.Sprintf("(not (= a %s))", m.m.S))
+				}
 			}
 		}
 		cond := fmt.Sprintf("(forall ((a Ref)) (! (=> (and (select %s (rroot a)) %s) (= (select %s a) (select %s a))) :pattern ((select %s a))))",
@@ -538,6 +556,16 @@ func (fr *frame) contractCall(ct *Contract, callee *ssa.Function, cc *ssa.CallCo
 		nw := st.heaps[HAlloc]
 		c.emit("(assert (forall ((a Ref)) (! (=> (select %s a) (select %s a)) :pattern ((select %s a)))))", old.S, nw.S, nw.S)
 		ml := c.evalModifies(ct, env)
+		if len(ct.ModHeaps) > 0 {
+			// whole-heap havoc cannot reach the caller's non-escaping locals
+			snaps := c.snapshotStable(st, nil)
+			for _, mh := range ct.ModHeaps {
+				if _, ok := c.R.heaps[mh]; ok {
+					c.havocHeap(st, mh)
+				}
+			}
+			c.restoreStable(st, snaps)
+		}
 		var hs []string
 		for h := range ml.cells {
 			hs = append(hs, h)
@@ -551,11 +579,9 @@ func (fr *frame) contractCall(ct *Contract, callee *ssa.Function, cc *ssa.CallCo
 			c.setHeap(st, h, cur)
 		}
 		for _, m := range ml.maps {
-			for _, h := range c.R.heapOrder {
-				if strings.HasPrefix(h, "MDom_") || strings.HasPrefix(h, "MVal_") {
-					cur := c.getHeap(st, h)
-					c.setHeap(st, h, Store(cur, m, c.fresh("modmap", arrayRange(cur.Sort))))
-				}
+			for _, h := range []string{c.R.MDomHeapT(m.mt), c.R.MValHeapT(m.mt)} {
+				cur := c.getHeap(st, h)
+				c.setHeap(st, h, Store(cur, m.m, c.fresh("modmap", arrayRange(cur.Sort))))
 			}
 		}
 		for _, s := range ml.slices {
